@@ -584,7 +584,7 @@ def check(ctx, replay=None):
         res.count("complex:" + {"D": "Simplex_tree default", "F": "Simplex_tree full_featured", "P": "Simplex_tree fast_persistence",
                                 "H": "Hasse_complex", "C": "Bitmap_cubical_complex", "Q": "Bitmap_cubical_complex periodic"}.get(c["opt"], c["opt"]))
         res.count("cells:" + ("<=7" if n <= 7 else "8-15" if n <= 15 else "16-40" if n <= 40 else "41-90" if n <= 90 else ">90"))
-        res.count("dimension:%d" % (len(c["shape"]) if is_cubical(c) else max(len(s) for s, _ in c["simplices"]) - 1))
+        res.count("dimension:%d" % (len(c["shape"]) if is_cubical(c) else max([len(s) for s, _ in c["simplices"]] or [0]) - 1))
         nvals = len(case_values(c))
         res.count("ties:" + ("all values equal" if nvals == 1 and n > 1 else "some" if nvals < n else "none"))
         vs = check_case(c, o, e)
@@ -626,7 +626,8 @@ def check(ctx, replay=None):
                 res.violation(kind, what, small, expected=expd, observed=obsd)
     res.rule = ("one evaluation = one run of compute_persistent_cohomology (complex, option set, field or prime range, persistence_dim_max, "
                 "min_interval_length) whose pair list, diagram, products and every read-out agreed with the algorithm model, the proved oracle and "
-                "the read-out definitions; distinct = distinct (insertion list, option set, configuration); every case has at least one simplex")
+                "the read-out definitions; distinct = distinct (complex as inserted, complex type / option set, configuration); the empty complex and the "
+                "single vertex occur once each (corpus)")
     res.exhaustive = False
     rs = [c for c in cases if c["origin"] == "random"] or cases
     res.samples = [{"opt": c["opt"], "simplices": c["simplices"][:14], "configs": c["configs"]} for c in rs[:4] if "simplices" in c] + \
